@@ -128,7 +128,7 @@ func (o *Own) rootsOf(v ssa.Value) (map[*ssa.Parameter]bool, []string) {
 			}
 		}
 	}
-	walk(o.p.Derive(v, nil))
+	walk(o.p.DeriveAll(v))
 	return roots, unknown
 }
 
@@ -147,7 +147,7 @@ func (o *Own) elemRoots(v ssa.Value) map[*ssa.Parameter]bool {
 			}
 		}
 	}
-	walk(o.p.Derive(v, nil))
+	walk(o.p.DeriveAll(v))
 	return roots
 }
 
